@@ -876,17 +876,15 @@ Proof.
   destruct (_ <? _); [|apply TR_refl]. eapply TR_trans; [apply TR_jump|apply IH].
 Qed.
 
-Lemma TR_replay_insert s hd r s1 : replay_insert s hd r = Ok s1 -> TR s s1.
+(** what inserting the replayed header does: at most one more proposed header in the voting view *)
+Lemma replay_insert_views s hd r s1 : replay_insert s hd r = Ok s1 ->
+  k_com s1 = k_com s /\ k_nxt s1 = k_nxt s /\ st_ev s1 = st_ev s /\
+  v_h (k_vot s1) = v_h (k_vot s) /\ v_r (k_vot s1) = v_r (k_vot s) /\ v_ver (k_vot s1) = v_ver (k_vot s) /\
+  v_pv (k_vot s1) = v_pv (k_vot s) /\ v_pc (k_vot s1) = v_pc (k_vot s) /\
+  incl (v_phs (k_vot s)) (v_phs (k_vot s1)).
 Proof.
-  unfold replay_insert.
-  destruct (existsb _ (v_phs _)); [intros E; inversion E; subst; apply TR_refl|].
-  destruct (existsb _ (st_rounds s)); intros E; inversion E; subst.
-  - apply (TR_put_silent _ ViewIDVoting (with_phs (k_vot s) (v_phs (k_vot s) ++ [fake_ph hd r]))); try reflexivity.
-    + split; reflexivity.
-    + repeat split; [cbn; apply incl_appl, incl_refl|apply pmap_le_refl|apply pmap_le_refl].
-  - apply (TR_put_silent _ ViewIDVoting (with_phs (k_vot s) (v_phs (k_vot s) ++ [fake_ph hd r]))); try reflexivity.
-    + split; reflexivity.
-    + repeat split; [cbn; apply incl_appl, incl_refl|apply pmap_le_refl|apply pmap_le_refl].
+  unfold replay_insert. destruct (existsb _ (v_phs _)); [intros E; inversion E; subst; repeat split; apply incl_refl|].
+  destruct (existsb _ (st_rounds s)); intros E; inversion E; subst; cbn; repeat split; apply incl_appl, incl_refl.
 Qed.
 
 Lemma replay_temp_ok h r keys pc entries : forall tm av tm' av',
@@ -928,21 +926,23 @@ Proof.
   destruct (_ <? _); [apply Hsame|].
   fold (replay_insert s hd (cp_round cp)).
   unfold bind at 1. destruct (replay_insert s hd (cp_round cp)) as [s1|] eqn:Hins; [|discriminate].
-  assert (T1 : TR s0 s1) by (eapply TR_trans; [exact T0|eapply TR_replay_insert; exact Hins]).
-  assert (Hpc : v_pc (k_vot s1) = v_pc (k_vot s)).
-  { unfold replay_insert in Hins. destruct (existsb _ (v_phs _)); [inversion Hins; reflexivity|].
-    destruct (existsb _ (st_rounds s)); inversion Hins; reflexivity. }
+  destruct (replay_insert_views _ _ _ _ Hins) as (F1&F2&F3&Fh&Fr&Fv&Fpv&Fpc&Fphs).
   unfold bind. destruct (check_voting_precommit_shift _) as [s3|] eqn:Hc; [|discriminate].
   intros E; inversion E; subst.
   match type of Hc with check_voting_precommit_shift ?X = _ => set (s2 := X) in * end.
-  eapply TR_trans; [exact T1|]. eapply TR_trans; [|apply TR_check_voting; exact Hc].
+  eapply TR_trans; [exact T0|]. eapply TR_trans; [|apply TR_check_voting; exact Hc].
+  (* header and precommits stored, version bumped, voting view marked: one in-place update of [s] *)
   set (pc' := fold_left (fun m e => pm_set m (fst e) (snd e)) temp (v_pc (k_vot s1))) in *.
-  apply (TR_put_silent s1 ViewIDVoting
-           (with_sum (with_pc (k_vot s1) pc') (sum_set_precommits (v_sum (with_pc (k_vot s1) pc')) (vs_pows (v_vals (with_pc (k_vot s1) pc'))) pc')));
-    try reflexivity.
-  - split; reflexivity.
-  - repeat split; [apply incl_refl|apply pmap_le_refl|]. cbn. unfold pc'. apply fold_set_le; [apply pmap_le_refl|].
-    rewrite Hpc. exact Htemp.
+  set (v2 := bump (with_sum (with_pc (k_vot s1) pc')
+                     (sum_set_precommits (v_sum (with_pc (k_vot s1) pc')) (vs_pows (v_vals (with_pc (k_vot s1) pc'))) pc'))) in *.
+  apply (TR_put_mark s ViewIDVoting v2 s2).
+  - unfold s2, views, put3. cbn. rewrite F1, F2. reflexivity.
+  - unfold s2. cbn. rewrite F3. reflexivity.
+  - split; cbn; symmetry; assumption.
+  - split; [exact Fphs|]. split; cbn.
+    + rewrite Fpv. apply pmap_le_refl.
+    + unfold pc'. rewrite Fpc. apply fold_set_le; [apply pmap_le_refl|exact Htemp].
+  - cbn. rewrite Fv. reflexivity.
 Qed.
 
 Theorem TR_step s o s' res : step s o = Ok (s', res) -> TR s s'.
@@ -2034,90 +2034,25 @@ Proof.
   - apply Hbody. exact Ha.
 Qed.
 
-(** ** Replayed headers.  A rejected replay is the identity.  An accepted one puts the header and
-    the precommits into the voting view without a version bump and then runs the commit check: when
-    that check commits or ends the round, the changed view leaves the voting slot (as the bumped
-    committing view, or replaced by the next round) and every slot is again the last marked view.
-    When it does neither (the most voted precommit target is another block: needs validators of a
-    majority of the power that precommitted two blocks of the round), the voting view stays changed,
-    unmarked - the guard [op_settles] excludes exactly that outcome. *)
-Definition op_settles (s : kstate) (o : op) : bool :=
-  match o with
-  | OpReplay hd cp =>
-      match step s o with
-      | Ok (s', res) => negb ((res =? 0) && (v_h (k_vot s') =? hd_height hd) && (v_r (k_vot s') =? cp_round cp))
-      | Panic _ => true
-      end
-  | _ => true
-  end.
-
-Definition not_replay (o : op) : bool := match o with OpReplay _ _ => false | _ => true end.
-
-Lemma not_replay_settles s o : not_replay o = true -> op_settles s o = true.
-Proof. destruct o; try reflexivity; discriminate. Qed.
-
-Lemma check_voting_cases s s' : check_voting_precommit_shift s = Ok s' ->
-  s' = s \/ s' = advance_voting_round s \/ exists voted, s' = shift_voting_to_committing s voted.
-Proof.
-  unfold check_voting_precommit_shift, bind.
-  destruct (byz_majority _) as [maj|]; [|discriminate].
-  destruct (_ <? maj).
-  - destruct (_ =? _); intros E; inversion E; subst; [right; left; reflexivity|left; reflexivity].
-  - destruct (sm_mpc _).
-    + intros E; inversion E; subst. right; left; reflexivity.
-    + destruct (find _ _) as [p|]; intros E; inversion E; subst; [right; right; eexists; reflexivity|left; reflexivity].
-Qed.
-
+(** ** Replayed headers.  A rejected replay is the identity; an accepted one stores the header and
+    the precommits in the voting view, bumps its version and marks it (like a precommit message for
+    the voting round), then runs the commit check. *)
 Lemma SY_jump_until fuel : forall s r, SY s (jump_until fuel s r).
 Proof.
   induction fuel as [|f IH]; intros s r; cbn [jump_until]; [apply SY_refl|].
   destruct (_ <? _); [|apply SY_refl]. eapply SY_trans; [apply SY_jump|apply IH].
 Qed.
 
-(** the voting view was changed without a mark ([s2] against [s]), then the round ended *)
-Lemma SY_moved_advance s s2 :
-  k_com s2 = k_com s -> st_ev s2 = st_ev s -> SY s (advance_voting_round s2).
-Proof.
-  intros Hcom Hev. set (s' := advance_voting_round s2).
-  assert (E : st_ev s' = st_ev s2 ++ [EvNil (k_vot s2); EvMark ViewIDVoting (k_vot s'); EvMark ViewIDNextRound (k_nxt s')]).
-  { unfold s', advance_voting_round, update_observers, increment_voting_round. cbn.
-    rewrite <- !app_assoc. reflexivity. }
-  rewrite Hev in E. apply (SY_of3 _ _ _ E).
-  intros k [->|[->| ->]]; [reflexivity| |reflexivity].
-  change (k_com s = k_com s2). symmetry. exact Hcom.
-Qed.
-
-Lemma SY_moved_shift s s2 voted :
-  st_ev s2 = st_ev s -> SY s (shift_voting_to_committing s2 voted).
-Proof.
-  intros Hev. set (s' := shift_voting_to_committing s2 voted).
-  assert (E : st_ev s' = st_ev s2 ++ [EvCommitted (v_h (k_com s2)); EvMark ViewIDCommitting (k_com s');
-                                      EvMark ViewIDVoting (k_vot s'); EvMark ViewIDNextRound (k_nxt s')]).
-  { unfold s', shift_voting_to_committing, update_observers. cbn. rewrite <- !app_assoc. reflexivity. }
-  rewrite Hev in E. apply (SY_of3 _ _ _ E). intros k [->|[->| ->]]; reflexivity.
-Qed.
-
-Lemma replay_insert_frame s hd r s1 : replay_insert s hd r = Ok s1 ->
-  k_com s1 = k_com s /\ st_ev s1 = st_ev s /\ v_h (k_vot s1) = v_h (k_vot s) /\ v_r (k_vot s1) = v_r (k_vot s).
-Proof.
-  unfold replay_insert. destruct (existsb _ (v_phs _)); [intros E; inversion E; subst; repeat split|].
-  destruct (existsb _ (st_rounds s)); intros E; inversion E; subst; repeat split.
-Qed.
-
-Lemma SY_handle_replay s0 hd cp s' res :
-  handle_replay s0 hd cp = Ok (s', res) ->
-  negb ((res =? 0) && (v_h (k_vot s') =? hd_height hd) && (v_r (k_vot s') =? cp_round cp)) = true ->
-  SY s0 s'.
+Lemma SY_handle_replay s0 hd cp s' res : handle_replay s0 hd cp = Ok (s', res) -> SY s0 s'.
 Proof.
   unfold handle_replay.
-  destruct (negb (hd_height hd =? _)); [intros E; inversion E; subst; intros _; apply SY_refl|].
+  destruct (negb (hd_height hd =? _)); [intros E; inversion E; subst; apply SY_refl|].
   destruct (cp_round cp <? _); [discriminate|].
   pose proof (SY_jump_until (N.to_nat (cp_round cp - v_r (k_vot s0))) s0 (cp_round cp)) as T0.
   set (s := jump_until _ s0 _) in *.
-  destruct ((v_r (k_vot s) =? cp_round cp) && (v_h (k_vot s) =? hd_height hd)) eqn:Hpos; cbn [negb]; [|discriminate].
-  apply andb_true_iff in Hpos as [Hr Hh]. apply N.eqb_eq in Hr, Hh.
-  assert (Hsame : forall r0, Ok (s0, r0) = Ok (s', res) -> negb ((res =? 0) && (v_h (k_vot s') =? hd_height hd) && (v_r (k_vot s') =? cp_round cp)) = true -> SY s0 s')
-    by (intros r0 E; inversion E; subst; intros _; apply SY_refl).
+  destruct (negb ((v_r (k_vot s) =? cp_round cp) && (v_h (k_vot s) =? hd_height hd))); [discriminate|].
+  assert (Hsame : forall r0, Ok (s0, r0) = Ok (s', res) -> SY s0 s')
+    by (intros r0 E; inversion E; subst; apply SY_refl).
   destruct (negb (hd_ok hd)); [apply Hsame|].
   destruct (negb (hd_height hd =? k_init_h s) && negb (bytes_eqb (hd_prev hd) (chdr_hash s))); [apply Hsame|].
   destruct (negb (valset_equal (hd_vals hd) (v_vals (k_vot s)) && vs_ok (hd_vals hd))); [apply Hsame|].
@@ -2129,74 +2064,39 @@ Proof.
   destruct (_ <? _); [apply Hsame|].
   fold (replay_insert s hd (cp_round cp)).
   unfold bind at 1. destruct (replay_insert s hd (cp_round cp)) as [s1|] eqn:Hins; [|discriminate].
-  destruct (replay_insert_frame _ _ _ _ Hins) as (F1&F2&F3&F4).
+  destruct (replay_insert_views _ _ _ _ Hins) as (F1&F2&F3&_).
   unfold bind. destruct (check_voting_precommit_shift _) as [s3|] eqn:Hc; [|discriminate].
-  intros E; inversion E; subst s3 res. intros Hg.
+  intros E; inversion E; subst.
   match type of Hc with check_voting_precommit_shift ?X = _ => set (s2 := X) in * end.
-  assert (G1 : k_com s2 = k_com s) by exact F1.
-  assert (G2 : st_ev s2 = st_ev s) by exact F2.
-  destruct (check_voting_cases _ _ Hc) as [E0|[E0|(voted&E0)]].
-  - exfalso. subst s'. assert (Xh : v_h (k_vot s2) = hd_height hd) by (rewrite <- Hh; exact F3).
-    assert (Xr : v_r (k_vot s2) = cp_round cp) by (rewrite <- Hr; exact F4).
-    rewrite Xh, Xr, !N.eqb_refl in Hg. discriminate.
-  - subst s'. eapply SY_trans; [exact T0|apply SY_moved_advance; assumption].
-  - subst s'. eapply SY_trans; [exact T0|apply SY_moved_shift; assumption].
+  eapply SY_trans; [exact T0|]. eapply SY_trans; [|apply SY_check_voting; exact Hc].
+  set (pc' := fold_left (fun m e => pm_set m (fst e) (snd e)) temp (v_pc (k_vot s1))) in *.
+  set (v2 := bump (with_sum (with_pc (k_vot s1) pc')
+                     (sum_set_precommits (v_sum (with_pc (k_vot s1) pc')) (vs_pows (v_vals (with_pc (k_vot s1) pc'))) pc'))) in *.
+  apply (SY_put_mark s ViewIDVoting v2 s2).
+  - unfold s2, views, put3. cbn. rewrite F1, F2. reflexivity.
+  - unfold s2. cbn. rewrite F3. reflexivity.
 Qed.
 
-Theorem SY_step s o s' res : auth_state s -> op_settles s o = true -> step s o = Ok (s', res) -> SY s s'.
+Theorem SY_step s o s' res : auth_state s -> step s o = Ok (s', res) -> SY s s'.
 Proof.
-  intros Ha. destruct o as [p|m|m|x cp]; cbn [op_settles]; intros Hn Hs.
-  - revert Hs. cbn [step]. unfold handle_ph. destruct (ph_key p); [apply SY_handle_ph_loop; exact Ha|intros E; inversion E; subst; apply SY_refl].
-  - revert Hs. apply SY_handle_votes.
-  - revert Hs. apply SY_handle_votes.
-  - rewrite Hs in Hn. cbn [step] in Hs. eapply SY_handle_replay; eassumption.
-Qed.
-
-(** ** Histories in which every accepted replayed header settles its round *)
-Definition plain_op (o : mop) : bool :=
-  match o with
-  | MK (XOp o') => not_replay o'
-  | MK _ => false
-  | _ => true
-  end.
-
-Lemma plain_no_restart ops : forallb plain_op ops = true -> forallb no_restart ops = true.
-Proof.
-  induction ops as [|o ops IH]; cbn [forallb]; [reflexivity|]. intros H. apply andb_true_iff in H as [A B].
-  rewrite (IH B), andb_true_r. destruct o as [[o'| |]| | |]; try reflexivity; discriminate.
-Qed.
-
-Fixpoint settled (s : mstate) (ops : list mop) : bool :=
-  match ops with
-  | [] => true
-  | o :: rest =>
-      (match o with MK (XOp o') => op_settles (ms_k s) o' | _ => true end) &&
-      match mstep s o with
-      | Ok (s1, _, _) => settled s1 rest
-      | Panic _ => true
-      end
-  end.
-
-(** histories without replayed headers are settled *)
-Lemma plain_settled ops : forall s, forallb plain_op ops = true -> settled s ops = true.
-Proof.
-  induction ops as [|o ops IH]; intros s; cbn [forallb settled]; [reflexivity|].
-  intros H. apply andb_true_iff in H as [A B]. apply andb_true_iff. split.
-  - destruct o as [[o'| |]| | |]; try reflexivity. apply not_replay_settles. exact A.
-  - destruct (mstep s o) as [[[s1 r] io]|]; [apply IH; exact B|reflexivity].
+  intros Ha. destruct o as [p|m|m|x cp]; cbn [step].
+  - unfold handle_ph. destruct (ph_key p); [apply SY_handle_ph_loop; exact Ha|intros E; inversion E; subst; apply SY_refl].
+  - apply SY_handle_votes.
+  - apply SY_handle_votes.
+  - apply SY_handle_replay.
 Qed.
 
 Lemma mk_step_sync s o s1 r io :
-  auth_state (ms_k s) -> op_settles (ms_k s) o = true -> mstep s (MK (XOp o)) = Ok (s1, r, io) ->
+  auth_state (ms_k s) -> mstep s (MK (XOp o)) = Ok (s1, r, io) ->
   auth_state (ms_k s1) /\
   exists new, st_ev (ms_k s1) = st_ev (ms_k s) ++ new /\ TR3 (views (ms_k s)) (views (ms_k s1)) new /\
               SY3 (views (ms_k s)) (views (ms_k s1)) new /\ ms_m s1 = fold_left mgr_step new (ms_m s).
 Proof.
-  intros Ha Hn Hs. destruct (mk_step_facts _ _ _ _ _ Hs) as (new&He&H3&Hm&_).
+  intros Ha Hs. destruct (mk_step_facts _ _ _ _ _ Hs) as (new&He&H3&Hm&_).
   revert Hs. cbn [mstep xstep is_restart_x]. unfold bind. destruct (step (ms_k s) o) as [[k' r1]|] eqn:Hst; [|discriminate].
   intros E; inversion E; subst. cbn [ms_k ms_m] in *.
   split; [eapply auth_step; eassumption|].
-  destruct (SY_step _ _ _ _ Ha Hn Hst) as (new2&He2&H2).
+  destruct (SY_step _ _ _ _ Ha Hst) as (new2&He2&H2).
   assert (new2 = new) by (rewrite He in He2; apply app_inv_head in He2; symmetry; exact He2). subst new2.
   exists new. split; [exact He|]. split; [exact H3|]. split; [exact H2|exact Hm].
 Qed.
@@ -2213,19 +2113,18 @@ Proof.
 Qed.
 
 Lemma gc_run : forall ops s s' ios,
-  forallb no_restart ops = true -> settled s ops = true -> mrun s ops = Ok (s', ios) ->
+  forallb no_restart ops = true -> mrun s ops = Ok (s', ios) ->
   auth_state (ms_k s) -> GC s -> auth_state (ms_k s') /\ GC s'.
 Proof.
-  induction ops as [|o rest IH]; intros s s' ios Hall Hset; cbn [mrun].
+  induction ops as [|o rest IH]; intros s s' ios Hall; cbn [mrun].
   - intros E; inversion E; subst. auto.
   - cbn [forallb] in Hall. apply andb_true_iff in Hall as [Ho Hr].
-    cbn [settled] in Hset. apply andb_true_iff in Hset as [Hso Hsr].
     destruct (mstep s o) as [[[s1 r] io]|] eqn:Hs; [|discriminate].
     destruct (mrun s1 rest) as [[s2 ios2]|] eqn:Hm; [|discriminate].
     intros E; inversion E; subst. intros Ha HG.
-    apply (IH s1 s' ios2 Hr Hsr Hm).
+    apply (IH s1 s' ios2 Hr Hm).
     + destruct o as [[o| |]|h0 r0| |]; cbn [no_restart is_restart_x negb] in Ho; try discriminate.
-      * apply (mk_step_sync _ _ _ _ _ Ha Hso Hs).
+      * apply (mk_step_sync _ _ _ _ _ Ha Hs).
       * revert Hs. cbn [mstep]. unfold bind. destruct (find_view _ _ _) as [[vid st]|]; [|discriminate].
         destruct (st =? ViewFound); [intros E1; inversion E1; subst; exact Ha|].
         destruct (st =? ViewBeforeCommitting); [|discriminate].
@@ -2233,7 +2132,7 @@ Proof.
       * revert Hs. cbn [mstep]. destruct (sm_output _) as [[[vv jv] sv]|]; intros E1; inversion E1; subst; exact Ha.
       * revert Hs. cbn [mstep]. destruct (g_output _) as [[[[c v] n] nl]|]; intros E1; inversion E1; subst; exact Ha.
     + destruct o as [[o| |]|h0 r0| |]; cbn [no_restart is_restart_x negb] in Ho; try discriminate.
-      * destruct (mk_step_sync _ _ _ _ _ Ha Hso Hs) as (_&new&He&H3&HY&Hm1).
+      * destruct (mk_step_sync _ _ _ _ _ Ha Hs) as (_&new&He&H3&HY&Hm1).
         intros k Hk. rewrite Hm1, (fold_mgr_gslot k Hk). cbn [go_v]. rewrite (HG k Hk). apply HY. exact Hk.
       * revert Hs. cbn [mstep]. unfold bind. destruct (find_view _ _ _) as [[vid st]|]; [|discriminate].
         destruct (st =? ViewFound); [intros E1; inversion E1; subst; exact HG|].
@@ -2260,16 +2159,15 @@ Proof.
 Qed.
 
 Theorem gossip_current_after_empty_read ih ivs ops s' ios s'' c :
-  forallb no_restart ops = true -> settled (ms_init ih ivs) ops = true ->
-  mrun (ms_init ih ivs) ops = Ok (s', ios) ->
+  forallb no_restart ops = true -> mrun (ms_init ih ivs) ops = Ok (s', ios) ->
   mstep s' MGRead = Ok (s'', c, IOGEmpty) ->
   gm_nil (m_g (ms_m s'')) = None /\
   forall k, is_slot k ->
     go_has_been_sent (gslot (m_g (ms_m s'')) k) = true /\
     go_v (gslot (m_g (ms_m s'')) k) = get_view (ms_k s'') k.
 Proof.
-  intros Hall Hset Hrun Hrd.
-  destruct (gc_run _ _ _ _ Hall Hset Hrun (auth_init ih ivs) (GC_init ih ivs)) as [_ HG].
+  intros Hall Hrun Hrd.
+  destruct (gc_run _ _ _ _ Hall Hrun (auth_init ih ivs) (GC_init ih ivs)) as [_ HG].
   revert Hrd. cbn [mstep]. destruct (g_output _) as [[[[c0 v] n] nl]|] eqn:Ho; intros E; inversion E; subst.
   destruct (g_output_none _ Ho) as (S1&S2&S3&S4). split; [exact S4|].
   intros k Hk. split; [|rewrite get_view_get3; apply HG; exact Hk].
@@ -2291,12 +2189,12 @@ Proof.
 Qed.
 
 Theorem kernel_version_bumped_on_change s o s' res :
-  auth_state s -> op_settles s o = true -> step s o = Ok (s', res) ->
+  auth_state s -> step s o = Ok (s', res) ->
   exists new, st_ev s' = st_ev s ++ new /\
     (Forall ev_ok new -> kinv (views s) ->
      forall k, is_slot k -> get_view s' k = get_view s k \/ vlt (get_view s k) (get_view s' k)).
 Proof.
-  intros Ha Hn Hs. destruct (TR_step _ _ _ _ Hs) as (new&He&H3). destruct (SY_step _ _ _ _ Ha Hn Hs) as (new2&He2&HY).
+  intros Ha Hs. destruct (TR_step _ _ _ _ Hs) as (new&He&H3). destruct (SY_step _ _ _ _ Ha Hs) as (new2&He2&HY).
   assert (new2 = new) by (rewrite He in He2; apply app_inv_head in He2; symmetry; exact He2). subst new2.
   exists new. split; [exact He|]. intros Hok Hk k Hslot.
   destruct (H3 Hok Hk) as (K1&S&P&M&Nn&O). rewrite Forall_forall in M.
@@ -2450,51 +2348,8 @@ Proof.
     destruct Hk as [->|[->| ->]]; cbn; first [exact Hq|apply veq_refl].
 Qed.
 
-Lemma SYW_handle_replay s0 hd cp s' res : handle_replay s0 hd cp = Ok (s', res) -> SYW s0 s'.
-Proof.
-  unfold handle_replay.
-  destruct (negb (hd_height hd =? _)); [intros E; inversion E; subst; apply SYW_refl|].
-  destruct (cp_round cp <? _); [discriminate|].
-  pose proof (SY_SYW _ _ (SY_jump_until (N.to_nat (cp_round cp - v_r (k_vot s0))) s0 (cp_round cp))) as T0.
-  set (s := jump_until _ s0 _) in *.
-  destruct (negb ((v_r (k_vot s) =? cp_round cp) && (v_h (k_vot s) =? hd_height hd))); [discriminate|].
-  assert (Hsame : forall r0, Ok (s0, r0) = Ok (s', res) -> SYW s0 s')
-    by (intros r0 E; inversion E; subst; apply SYW_refl).
-  destruct (negb (hd_ok hd)); [apply Hsame|].
-  destruct (negb (hd_height hd =? k_init_h s) && negb (bytes_eqb (hd_prev hd) (chdr_hash s))); [apply Hsame|].
-  destruct (negb (valset_equal (hd_vals hd) (v_vals (k_vot s)) && vs_ok (hd_vals hd))); [apply Hsame|].
-  destruct (negb (vs_ok (hd_next hd))); [apply Hsame|].
-  destruct (fold_left _ (signed_entries (cp_proofs cp)) ([], true)) as [temp allv].
-  destruct (negb allv); [apply Hsame|].
-  destruct (pm_get temp (hd_hash hd)); [|apply Hsame].
-  unfold bind at 1. destruct (byz_majority _); [|discriminate].
-  destruct (_ <? _); [apply Hsame|].
-  fold (replay_insert s hd (cp_round cp)).
-  unfold bind at 1. destruct (replay_insert s hd (cp_round cp)) as [s1|] eqn:Hins; [|discriminate].
-  assert (T1 : SYW s0 s1).
-  { eapply SYW_trans; [exact T0|]. unfold replay_insert in Hins.
-    destruct (existsb _ (v_phs _)); [inversion Hins; subst; apply SYW_refl|].
-    destruct (existsb _ (st_rounds s)); inversion Hins; subst;
-      apply (SYW_put_silent _ ViewIDVoting (with_phs (k_vot s) (v_phs (k_vot s) ++ [fake_ph hd (cp_round cp)])));
-      try reflexivity; repeat split. }
-  unfold bind. destruct (check_voting_precommit_shift _) as [s3|] eqn:Hc; [|discriminate].
-  intros E; inversion E; subst.
-  match type of Hc with check_voting_precommit_shift ?X = _ => set (s2 := X) in * end.
-  eapply SYW_trans; [exact T1|]. eapply SYW_trans; [|apply SY_SYW, SY_check_voting; exact Hc].
-  set (pc' := fold_left (fun m e => pm_set m (fst e) (snd e)) temp (v_pc (k_vot s1))) in *.
-  apply (SYW_put_silent s1 ViewIDVoting
-           (with_sum (with_pc (k_vot s1) pc') (sum_set_precommits (v_sum (with_pc (k_vot s1) pc')) (vs_pows (v_vals (with_pc (k_vot s1) pc'))) pc')));
-    try reflexivity. repeat split.
-Qed.
-
 Theorem SYW_step s o s' res : auth_state s -> step s o = Ok (s', res) -> SYW s s'.
-Proof.
-  intros Ha Hs. destruct o as [p|m|m|x cp].
-  - apply SY_SYW. exact (SY_step s (OpPH p) s' res Ha eq_refl Hs).
-  - apply SY_SYW. exact (SY_step s (OpPrevote m) s' res Ha eq_refl Hs).
-  - apply SY_SYW. exact (SY_step s (OpPrecommit m) s' res Ha eq_refl Hs).
-  - cbn [step] in Hs. eapply SYW_handle_replay; exact Hs.
-Qed.
+Proof. intros Ha Hs. apply SY_SYW. eapply SY_step; eassumption. Qed.
 
 Lemma mk_step_syncw s o s1 r io :
   auth_state (ms_k s) -> mstep s (MK (XOp o)) = Ok (s1, r, io) ->
@@ -2696,73 +2551,15 @@ Proof.
   apply (sm_output_none _ Ho Oh Or). rewrite Ov. exact Hlt.
 Qed.
 
-(** * What is false of the model *)
+(** * Replayed headers and restarts *)
 
-(** Witness (accepted replayed header that does not settle its round): one validator, initial
-    height 1.  A header of height 1 with hash [9] is replayed with a commit proof for round 0 in
-    which the validator precommitted BOTH [9] and another block [1].  Every check passes ([9] has
-    a majority), handleReplayedHeader appends the header to the voting view's proposed headers and
-    stores both precommit proofs in the voting view - no version bump, no Mark*ViewUpdated - and
-    then checkVotingPrecommitViewShift finds [1] as the most voted target (equal power, smaller
-    hash), has no proposed header for it and returns without committing.  Result 0 (accepted);
-    the voting view changed, its version did not, no event was raised.
-    (The earlier witness - a REJECTED replay leaving the header behind - was confirmed on the Go
-    code and repaired there: a rejected replay is now the identity, [SY_handle_replay].) *)
-Definition w_hd : hdr := mk_hdr [9] true 1 [] empty_cproof n_vs n_vs.
-Definition w_sg (t : bytes) : ssig := mk_ssig [0; 0] (SVote 0 1 1 0 t).
-Definition w_cp : cproof := mk_cproof 0 [1] [([9], [w_sg [9]]); ([1], [w_sg [1]])].
-Definition w_replay_ops : list mop := [MK (XOp (OpReplay w_hd w_cp)); MGRead].
-
-Theorem kernel_version_bumped_on_change_refuted :
-  exists s o s' res,
-    s = init_state 1 n_vs /\ step s o = Ok (s', res) /\ res = 0 /\ op_settles s o = false /\
-    v_h (k_vot s') = v_h (k_vot s) /\ v_r (k_vot s') = v_r (k_vot s) /\ v_ver (k_vot s') = v_ver (k_vot s) /\
-    st_ev s' = st_ev s /\
-    (List.length (v_phs (k_vot s)), List.length (v_pc (k_vot s))) = (0%nat, 0%nat) /\
-    (List.length (v_phs (k_vot s')), List.length (v_pc (k_vot s'))) = (1%nat, 2%nat).
-Proof.
-  eexists. exists (OpReplay w_hd w_cp). eexists. eexists. split; [reflexivity|]. split; [vm_compute; reflexivity|].
-  repeat split; vm_compute; reflexivity.
-Qed.
-
-Theorem gossip_current_after_empty_read_refuted :
-  exists s' ios s'' c,
-    forallb no_restart w_replay_ops = true /\ settled (ms_init 1 n_vs) w_replay_ops = false /\
-    mrun (ms_init 1 n_vs) w_replay_ops = Ok (s', ios) /\ forallb ev_okb (st_ev (ms_k s')) = true /\
-    mstep s' MGRead = Ok (s'', c, IOGEmpty) /\
-    go_has_been_sent (gslot (m_g (ms_m s'')) ViewIDVoting) = true /\
-    triple (go_v (gslot (m_g (ms_m s'')) ViewIDVoting)) = triple (get_view (ms_k s'') ViewIDVoting) /\
-    go_v (gslot (m_g (ms_m s'')) ViewIDVoting) <> get_view (ms_k s'') ViewIDVoting /\
-    ~ view_le (get_view (ms_k s'') ViewIDVoting) (go_v (gslot (m_g (ms_m s'')) ViewIDVoting)).
-Proof.
-  eexists. eexists. eexists. eexists. split; [reflexivity|]. split; [vm_compute; reflexivity|].
-  split; [vm_compute; reflexivity|].
-  split; [vm_compute; reflexivity|]. split; [vm_compute; reflexivity|].
-  split; [vm_compute; reflexivity|]. split; [vm_compute; reflexivity|]. split.
-  - intros E. apply (f_equal (fun v => List.length (v_phs v))) in E. vm_compute in E. discriminate.
-  - intros (Hphs&_). vm_compute in Hphs. specialize (Hphs _ (or_introl eq_refl)). destruct Hphs.
-Qed.
-
-(** the state machine: entered (1, 0) and answered with the voting view; the replay changes that
-    view; nothing is offered, the version bar equals the kernel's version - and the kernel's view
-    holds a proposed header and precommits the state machine was never shown *)
-Definition w_sm_ops : list mop := [MEnter 1 0; MK (XOp (OpReplay w_hd w_cp))].
-
-Theorem sm_content_current_after_empty_read_refuted :
-  exists s' ios s'' c v0,
-    mrun (ms_init 1 n_vs) w_sm_ops = Ok (s', ios) /\ forallb ev_okb (st_ev (ms_k s')) = true /\
-    hd (IONone) ios = IOEnterView v0 /\
-    mstep s' MSMRead = Ok (s'', c, IOEmpty) /\
-    smm_last (sm_of s'') = v_ver (get_view (ms_k s'') ViewIDVoting) /\
-    triple v0 = triple (get_view (ms_k s'') ViewIDVoting) /\
-    flat_map sm_vrv ios = [] /\
-    ~ view_le (get_view (ms_k s'') ViewIDVoting) v0.
-Proof.
-  eexists. eexists. eexists. eexists. eexists. split; [vm_compute; reflexivity|].
-  split; [vm_compute; reflexivity|]. split; [vm_compute; reflexivity|]. split; [vm_compute; reflexivity|].
-  split; [vm_compute; reflexivity|]. split; [vm_compute; reflexivity|]. split; [vm_compute; reflexivity|].
-  intros (Hphs&_). vm_compute in Hphs. specialize (Hphs _ (or_introl eq_refl)). destruct Hphs.
-Qed.
+(** Two witnesses found by this development were confirmed on the Go code and repaired there, and
+    the model followed: (1) a REJECTED replayed header used to stay in the voting view's proposed
+    headers (handleReplayedHeader now validates before it changes anything); (2) an ACCEPTED one
+    used to be stored, with its precommits, without version bump or MarkVotingViewUpdated, which
+    left both consumers on the old content whenever the commit check that follows did not move the
+    voting view on (the validator had precommitted two blocks).  Both are gone: [SY_step] and the
+    currency theorems hold for all four kinds of kernel operation. *)
 
 (** a rejected replay is the identity on the kernel state (all rejections, result 2; result 1 is
     the out-of-sync answer) *)
